@@ -52,6 +52,28 @@ theorem C19_mailbox_no_cross_epoch : ∀ s, Reach Skeleton.current s → ∀ t p
   intro s hr t p s' hs
   exact Mb.handoff_same_epoch (refines_handoff _ cur_hyg cur_nochanclose cur_wakes hr t p hs)
 
+/-! ### what the refinement needs from `Receive`: it fails only when the mailbox is closed -/
+
+/-- The specification's `register` refuses a receiver only on a closed mailbox.  `C19_refines_mailbox_step`
+    therefore rests on the source fact `bcReceiveErrorsOnlyClosed` (part of `cur_wakes`).  On the current
+    tree with that ONE fact flipped (`Receive` also refuses a caller context that is done already) the
+    simulation fails at the first such `Receive`: the receiver is refused on an OPEN mailbox and no entry is
+    created, whereas the specification's `register` binds it to a fresh epoch — the step is neither a
+    stutter nor the specification step. -/
+theorem C19_refusing_a_done_context_is_no_mailbox_step :
+    ((run { Skeleton.current with bcReceiveErrorsOnlyClosed := false } init [.ctxCancel 1]).bind fun s =>
+      (step { Skeleton.current with bcReceiveErrorsOnlyClosed := false } s (.receive 0 7 1)).map fun s' =>
+        decide (s'.rcvs 0 = .refusedCtx ∧ s'.closed = false ∧ s'.table 7 = none ∧
+                (abs s).rcvs 0 = .absent ∧ (abs s').rcvs 0 = .refused ∧
+                absAct s (.receive 0 7 1) = some (.register 0 7 1) ∧
+                (Mb.specStep (abs s) (.register 0 7 1)).map (fun m => (m.rcvs 0, m.live 7)) =
+                  some (.bound 7 0 1 .none, some 0))) = some true := by decide
+
+/-- on the current tree the same `Receive` registers the receiver (the entry is born cancelled) -/
+example : (run Skeleton.current init [.ctxCancel 1, .receive 0 7 1]).map
+    (fun s => decide (s.rcvs 0 = .have 7 0 1 ∧ s.table 7 = some 0 ∧
+                      (s.entries 0).map (·.ctxDone) = some true)) = some true := by decide
+
 /-! ### non-vacuity -/
 
 /-- the specification hands a value over… -/
@@ -85,3 +107,4 @@ end Panrpc.Bc
 #print axioms Panrpc.Bc.C19_mailbox_at_most_once
 #print axioms Panrpc.Bc.C19_mailbox_no_cross_key
 #print axioms Panrpc.Bc.C19_mailbox_no_cross_epoch
+#print axioms Panrpc.Bc.C19_refusing_a_done_context_is_no_mailbox_step
